@@ -17,5 +17,6 @@ Record vfacts (U : universe) (g : graph) : Prop := {
   vf_dest_dict : forall n d, dest_at g n = Some d -> dict_get d (dests_dict g) = Some n;
   vf_orig_out : forall n o, origin_at g n = Some o -> exists e1, out_links g n = [e1];
   vf_dest_in : forall n d, dest_at g n = Some d -> exists e1, in_links g n = [e1];
+  vf_dest_out : forall n d, dest_at g n = Some d -> out_links g n = [];
   vf_src : forall e, In e (g_edges g) -> origin_at g (e_up e) = None -> in_links g (e_up e) <> [];
   vf_sink : forall e, In e (g_edges g) -> dest_at g (e_down e) = None -> out_links g (e_down e) <> [] }.
